@@ -170,11 +170,12 @@ PROPOSED_KNOWN = [
          text="r:user imports store and user (user uses store.blob); passing r:producer's store explicitly leaves `user` to an implicit "
               "import whose blob is the blob of a freshly imported store: every argument passed its own subtype check, the "
               "instantiation as a whole is ill-typed and only the validator notices"),
-    dict(property=PID, id="C01-merge-conflict-span-panic", status="known", witness=_w("ok-import-conflict"),
+    dict(property=PID, id="C01-merge-conflict-span-panic", status="fixed", commit="cee2340", witness=_w("ok-import-conflict"),
          signature="panic `no entry found for key` in Resolution::encode (wac-parser resolution.rs) while translating "
                    "EncodeError::ImportTypeMergeConflict whose party is an explicit import (tag M:...)",
-         text="since fix 591363d the graph reports ImportTypeMergeConflict for an explicit import; Resolution::encode indexes "
-              "instantiation_spans with that import's node id and panics. Repair: hooks/fix-c01-merge-conflict-import-span.patch"),
+         text="fixed: property=C01 cee2340 after fix 591363d the graph reported ImportTypeMergeConflict for an explicit import and "
+              "Resolution::encode indexed instantiation_spans with that import's node id and panicked (found by this check; repaired "
+              "concurrently in /repo; the witness stays in the corpus as a regression case: it must report the documented error)"),
     dict(property=PID, id="C05-encode-dup-import", status="known", witness=_w("k-dup-import"), signature="encode-dup-import",
          text="world that imports interface I explicitly and also depends on I through `use`: TypeEncoder::component imports the "
               "dependency first and then the explicit import again -> ValidationFailure `import name conflicts with previous name`"),
@@ -418,6 +419,8 @@ def run(res, tier, seed, replay):
         evaluations=len(rows) * 4, compositions=len(rows), case_kinds=kinds, encodable_compositions=encodable,
         binaries_validated_independently=validated, correspondence_cases=sum(1 for r in rows if r["model"] is not None),
         disagreements=len(disagreements), spec_failures_on_impl=len(prop_fail), distinct_nontrivial=len(nontrivial),
+        documents_not_resolved=sum(1 for r in rows if r["case"][0] in "WF" and r["impl"].get("res", "").startswith("E:")),
+        document_resolution_panics=sum(1 for r in rows if r["case"][0] in "WF" and r["impl"].get("res", "").startswith("PANIC")),
         encode_outcomes=outcome_hist, known_finding_observations={k: len(set(r["case"] for r in v)) for k, v in known_hits.items()},
         rule="compositions = regression corpus (corpus/C01/cases.txt: witnesses of the known findings + must-be-valid cases) + the "
              "repository's WAC fixtures (tests/encoding, tests/resolution, examples) + random accepted graph-API histories (register / "
